@@ -412,4 +412,4 @@ LEVEL_TEXT = ('Per generated history every index snapshot (one per step, includi
               'with torn images of it; each open is compared by the full query battery with an index-less open. '
               'Read-only opens are checked by hashing the whole directory and calling every writer.')
 LEVEL_NOTE = ('Trusted: the no-index open as reference (its own correctness vs the history is C04/C01). Index snapshots '
-              'are produced by FileStorage._save_index() after each step. The "writer active" case is exercised in C08/C18.')
+              'are produced by FileStorage._save_index() after each step. The "writer active" case is the voted-tail image (complete transaction with status c); a live concurrent writer process is not run.')
